@@ -28,7 +28,9 @@ use tiny_std::unix::fd::AsRawFd;
 use tiny_std::{Errno, UnixStr, UnixString};
 
 const WITH_START: bool = cfg!(feature = "with-start");
-const CASE_ALARM: u32 = 12;
+const CASE_ALARM: u32 = 10;
+/// after this many hanging cases (over all shards) the remaining cases are skipped (recorded as a cap)
+const MAX_HANGS: u64 = 3;
 const NOBODY: u32 = 65534;
 const CLOSURE_ERRNO: i32 = libc::EXDEV;
 const CLOSURE_UMASK: u32 = 0o137;
@@ -72,6 +74,9 @@ struct Config {
     args: Vec<Vec<u8>>,
     /// None: `env`/`envs` never called; Some(v): `envs(v)` (v may be empty)
     env: Option<Vec<Vec<u8>>>,
+    /// (`start` build only) the process environment installed through hook H2 before the spawn, i.e.
+    /// what `Environment::Inherit` reads; None: nothing installed (ENV.env_p stays null)
+    inherit: Option<Vec<Vec<u8>>>,
     /// "unset" | "dir" | "missing"
     cwd: String,
     stdio: [Sm; 3],
@@ -90,6 +95,7 @@ impl Config {
             bin: "helper".into(),
             args: vec![b"--exit=7".to_vec()],
             env: None,
+            inherit: None,
             cwd: "unset".into(),
             stdio: [Sm::Unset; 3],
             uid: "unset".into(),
@@ -103,6 +109,7 @@ impl Config {
             "bin": self.bin,
             "args": self.args.iter().map(|a| show_bytes(a)).collect::<Vec<_>>(),
             "env": match &self.env { None => Value::Null, Some(v) => json!(v.iter().map(|a| show_bytes(a)).collect::<Vec<_>>()) },
+            "inherit": match &self.inherit { None => Value::Null, Some(v) => json!(v.iter().map(|a| show_bytes(a)).collect::<Vec<_>>()) },
             "cwd": self.cwd,
             "stdio": self.stdio.iter().map(|m| m.name()).collect::<Vec<_>>(),
             "uid": self.uid, "gid": self.gid, "pgroup": self.pgroup, "closure": self.closure,
@@ -116,6 +123,7 @@ impl Config {
             bin: s("bin", "helper"),
             args: strs(&v["args"]),
             env: if v["env"].is_null() { None } else { Some(strs(&v["env"])) },
+            inherit: if v["inherit"].is_null() { None } else { Some(strs(&v["inherit"])) },
             cwd: s("cwd", "unset"),
             stdio: [st.first().copied().unwrap_or(Sm::Unset), st.get(1).copied().unwrap_or(Sm::Unset), st.get(2).copied().unwrap_or(Sm::Unset)],
             uid: s("uid", "unset"),
@@ -174,7 +182,7 @@ impl Fault {
     /// failures the code may legitimately absorb: `close` reporting an error after having
     /// released the descriptor, an interrupted `read`/`wait4`
     fn tolerable(&self) -> bool {
-        self.nr == libc::SYS_close || ((self.nr == libc::SYS_read || self.nr == libc::SYS_wait4) && self.errno == libc::EINTR)
+        self.nr == libc::SYS_close || ((self.nr == libc::SYS_read || self.nr == libc::SYS_wait4) && self.errno == libc::EINTR) || (self.nr == libc::SYS_dup3 && self.errno == libc::EBUSY)
     }
 }
 
@@ -196,8 +204,8 @@ fn menu(nr: i64, thorough: bool) -> Vec<(i32, bool)> {
         x if x == libc::SYS_close => vec![(libc::EIO, true), (libc::EINTR, true)],
         x if x == libc::SYS_read => vec![(libc::EINTR, false)],
         x if x == libc::SYS_wait4 => vec![(libc::EINTR, false)],
-        // EBUSY is a C09 matter (rusl's dup3 special-cases the value 16)
-        x if x == libc::SYS_dup3 || x == libc::SYS_dup2 => vec![(libc::EMFILE, false), (libc::EBADF, false)],
+        // one EBUSY (the race with open): retrying and reporting it are both accepted (how dup3 treats it is C09's subject)
+        x if x == libc::SYS_dup3 || x == libc::SYS_dup2 => vec![(libc::EMFILE, false), (libc::EBADF, false), (libc::EBUSY, false)],
         x if x == libc::SYS_chdir => vec![(libc::ENOENT, false), (libc::ENOTDIR, false), (libc::EACCES, false)],
         x if x == libc::SYS_setuid => vec![(libc::EPERM, false), (libc::EAGAIN, false)],
         x if x == libc::SYS_setgid => vec![(libc::EPERM, false)],
@@ -320,6 +328,7 @@ impl sysx::Plan for CasePlan {
 struct Ctx {
     root: String,
     helper: String,
+    helper_src: String,
     cwd_dir: String,
     thorough: bool,
     root_user: bool,
@@ -364,9 +373,10 @@ fn make_ctx(thorough: bool) -> Ctx {
         Some(s) if s.is_file() => s,
         _ => me.clone(),
     };
+    let helper_src = if src == me { "a copy of the harness executable run under the name spawn-helper (no spawn-helper binary next to the harness)".to_string() } else { format!("a copy of {}", src.display()) };
     std::fs::copy(&src, &helper).expect("copy helper");
     chmod(&helper, 0o755);
-    Ctx { root, helper, cwd_dir, thorough, root_user: unsafe { libc::geteuid() } == 0 }
+    Ctx { root, helper, helper_src, cwd_dir, thorough, root_user: unsafe { libc::geteuid() } == 0 }
 }
 
 fn chmod(p: &str, mode: u32) {
@@ -542,6 +552,14 @@ fn exec_case(ctx: &Ctx, sdir: &str, shm: *mut Shm, shard_pgid: i32, cfg: &Config
             _ => ctx.missing_dir(),
         }
         .as_bytes());
+        // (start build) the process environment as tiny-std's start-up code would have recorded it
+        let inh_b: Vec<Vec<u8>> = cfg.inherit.clone().unwrap_or_default().iter().map(|e| nul(e)).collect();
+        let mut inh_p: Vec<*const u8> = inh_b.iter().map(|e| e.as_ptr()).collect();
+        inh_p.push(std::ptr::null());
+        #[cfg(feature = "with-start")]
+        if cfg.inherit.is_some() {
+            tiny_std::env::verif_set_env(0, std::ptr::null(), inh_p.as_ptr());
+        }
         let bin = UnixStr::try_from_bytes(&bin_b).expect("bin");
         let mut cmd = Command::new(bin).expect("Command::new");
         for a in &args_b {
@@ -757,7 +775,13 @@ impl Shard {
     }
 
     /// Ok(observation) or Err("hang" | machinery message)
+    fn hangs_file(&self) -> String {
+        format!("{}/hangs", self.ctx.root)
+    }
     fn run(&self, cfg: &Config, faults: &[Fault]) -> Result<Value, String> {
+        if std::fs::metadata(self.hangs_file()).map(|m| m.len()).unwrap_or(0) >= MAX_HANGS {
+            return Err("skipped".into());
+        }
         shm_reset(self.shm);
         unsafe {
             let pid = libc::fork();
@@ -780,6 +804,10 @@ impl Shard {
                 libc::kill(-pid, libc::SIGKILL);
             }
             if libc::WIFSIGNALED(st) && libc::WTERMSIG(st) == libc::SIGALRM {
+                use std::io::Write;
+                if let Ok(mut f) = std::fs::OpenOptions::new().create(true).append(true).open(self.hangs_file()) {
+                    let _ = f.write_all(b"h");
+                }
                 return Err("hang".into());
             }
             if !normal {
@@ -833,13 +861,29 @@ fn judge_ok(ctx: &Ctx, cfg: &Config, obs: &Value, r: &mut Report, rp: &Value) {
     if got_argv != want_argv {
         r.violation("C13:spawn:argv-differs", format!("child argv {} but configured {}", show(&got_argv), show(&want_argv)), rp.clone());
     }
-    // environment: exactly the provided entries; nothing given = (without `start`) Environment::None,
-    // (with `start`) Environment::Inherit, which in a std binary reads a null ENV.env_p = empty
-    let want_env: Vec<Vec<u8>> = cfg.env.clone().unwrap_or_default();
+    // environment: exactly the provided entries; nothing given = (without `start`) Environment::None = empty
+    // with `start`: nothing given = Environment::Inherit = the installed process environment (H2);
+    // `envs(<empty iterator>)` is accepted either way (no entries / no-op)
+    let inherited: Vec<Vec<u8>> = if WITH_START { cfg.inherit.clone().unwrap_or_default() } else { Vec::new() };
+    let want_envs: Vec<Vec<Vec<u8>>> = match &cfg.env {
+        None => vec![inherited],
+        Some(v) if v.is_empty() => vec![Vec::new(), inherited],
+        Some(v) => vec![v.clone()],
+    };
     let got_env = strs(&h["env"]);
-    if got_env != want_env {
-        r.violation("C13:spawn:env-differs", format!("child environment {} but configured {}", show(&got_env), show(&want_env)), rp.clone());
+    if !want_envs.contains(&got_env) {
+        r.violation(
+            "C13:spawn:env-differs",
+            format!("child environment {} but configured {}{}", show(&got_env), show(&want_envs[0]), if cfg.env.is_none() && WITH_START { " (Environment::Inherit of the installed process environment)" } else { "" }),
+            rp.clone(),
+        );
     }
+    r.outcome(match (&cfg.env, WITH_START && cfg.inherit.is_some()) {
+        (None, true) => "env-inherited",
+        (None, false) => "env-none",
+        (Some(_), true) => "env-provided-over-inherit",
+        (Some(_), false) => "env-provided",
+    });
     let want_cwd = if cfg.cwd == "dir" { ctx.cwd_dir.clone().into_bytes() } else { unhex(obs["parent_cwd"].as_str().unwrap_or("")) };
     let got_cwd = unhex(h["cwd"].as_str().unwrap_or(""));
     if got_cwd != want_cwd {
@@ -995,6 +1039,13 @@ fn judge(ctx: &Ctx, cfg: &Config, faults: &[Fault], res: &Result<Value, String>,
             r.violation("C13:spawn:hang", format!("spawn (or reading the pipes / wait) did not finish within {CASE_ALARM}s; failing step: {step}"), rp);
             return;
         }
+        Err(e) if e == "skipped" => {
+            if r.caps_hit.is_empty() {
+                r.cap(format!("{MAX_HANGS} cases hung; the remaining cases of the run were skipped"));
+            }
+            r.outcome("skipped-after-hangs");
+            return;
+        }
         Err(e) => {
             r.cap(format!("{e} (case {rp})"));
             r.notes.push("machinery-failure".into());
@@ -1104,16 +1155,20 @@ fn check_config(sh: &Shard, job: &Job, r: &mut Report) {
     let cfg = &job.cfg;
     let case = replay_of(cfg, &[]);
     set_case(&case.to_string());
-    r.eval();
-    r.nontrivial_unique();
     let res = sh.run(cfg, &[]);
-    judge(&sh.ctx, cfg, &[], &res, r);
+    if !job.pairs {
+        // (in a pairs job the fault-free and the single-deviation runs only provide the traces;
+        // they are counted and judged in the configuration's ordinary job)
+        r.eval();
+        r.nontrivial_unique();
+        judge(&sh.ctx, cfg, &[], &res, r);
+    }
     let Ok(obs) = res else {
         clear_case();
         return;
     };
     let (np, nc) = obs["trace"].as_array().map(|a| (a.iter().filter(|e| e["side"] == "parent").count(), a.iter().filter(|e| e["side"] == "child").count())).unwrap_or((0, 0));
-    if *cfg == Config::base() {
+    if *cfg == Config::base() && !job.pairs {
         r.bound("base_command_intercepted_calls_parent", np as u64);
         r.bound("base_command_intercepted_calls_child", nc as u64);
         r.bound("base_command_trace", json!(short_trace(&obs)));
@@ -1123,8 +1178,10 @@ fn check_config(sh: &Shard, job: &Job, r: &mut Report) {
         r.bound("all_pipes_command_intercepted_calls_child", nc as u64);
         r.bound("all_pipes_command_trace", json!(short_trace(&obs)));
     }
+    if !job.pairs {
     r.sample(json!({"cfg": cfg.to_json(), "spawn": obs["spawn"], "err": obs["err"], "wait": obs["wait"], "calls_parent": np, "calls_child": nc,
                     "child_argv": obs["helper"]["argv"].as_array().map(|a| a.iter().map(|s| show_bytes(&unhex(s.as_str().unwrap_or("")))).collect::<Vec<_>>())}));
+    }
     if !job.faults || cfg.natural_failure().is_some() || cfg.drops_both_ids() {
         clear_case();
         return;
@@ -1134,12 +1191,13 @@ fn check_config(sh: &Shard, job: &Job, r: &mut Report) {
     for f in &faults {
         let fs = [f.clone()];
         set_case(&replay_of(cfg, &fs).to_string());
-        r.eval();
-        r.nontrivial_unique();
         let res1 = sh.run(cfg, &fs);
-        judge(&sh.ctx, cfg, &fs, &res1, r);
-        r.outcome(&format!("fault@{}", f.step));
-        if let (true, Ok(o1)) = (job.pairs, res1) {
+        if !job.pairs {
+            r.eval();
+            r.nontrivial_unique();
+            judge(&sh.ctx, cfg, &fs, &res1, r);
+            r.outcome(&format!("fault@{}", f.step));
+        } else if let Ok(o1) = res1 {
             firsts.push((f.clone(), o1));
         }
     }
@@ -1175,6 +1233,10 @@ fn judge_pair(ctx: &Ctx, cfg: &Config, faults: &[Fault], res: &Result<Value, Str
         Ok(o) => o,
         Err(e) if e == "hang" => {
             r.violation("C13:spawn:hang", format!("two deviations ({step}): no result within {CASE_ALARM}s"), rp);
+            return;
+        }
+        Err(e) if e == "skipped" => {
+            r.outcome("skipped-after-hangs");
             return;
         }
         Err(e) => {
@@ -1227,7 +1289,12 @@ fn b(s: &[u8]) -> Vec<u8> {
 
 fn single_factor(ctx: &Ctx) -> Vec<Config> {
     let base = Config::base();
-    let mut v = vec![base.clone()];
+    // natural failures first: they are the simplest cases of their keys
+    let mut v = Vec::new();
+    for bn in ["missing", "notexec", "dir"] {
+        v.push(Config { bin: bn.into(), ..base.clone() });
+    }
+    v.push(base.clone());
     let mut args: Vec<Vec<Vec<u8>>> = vec![vec![], vec![b(b"--exit=3"), b(b"x")], vec![b(b"--exit=3"), b(b"")], vec![b(b""), b(b"--exit=5")], vec![b(b"--exit=4"), b(b"\xff\xfe")]];
     let mut envs: Vec<Vec<Vec<u8>>> = vec![vec![], vec![b(b"A=1")], vec![b(b"A=1"), b(b"B=two words")]];
     if ctx.thorough {
@@ -1240,7 +1307,18 @@ fn single_factor(ctx: &Ctx) -> Vec<Config> {
     for e in envs {
         v.push(Config { env: Some(e), ..base.clone() });
     }
-    for c in ["dir", "missing"] {
+    if WITH_START {
+        // Environment::Inherit: process environments of 0..2 entries installed through H2, alone and
+        // under provided entries
+        let inh: Vec<Vec<Vec<u8>>> = vec![vec![], vec![b(b"INH=1")], vec![b(b"INH=1"), b(b"HOME=/nowhere")], vec![b(b"I=\xff"), b(b"NOEQ")]];
+        for i in &inh {
+            v.push(Config { inherit: Some(i.clone()), ..base.clone() });
+        }
+        v.push(Config { inherit: Some(inh[2].clone()), env: Some(vec![]), ..base.clone() });
+        v.push(Config { inherit: Some(inh[2].clone()), env: Some(vec![b(b"A=1")]), ..base.clone() });
+        v.push(Config { inherit: Some(inh[2].clone()), env: Some(vec![b(b"A=1"), b(b"INH=2")]), ..base.clone() });
+    }
+    for c in ["missing", "dir"] {
         v.push(Config { cwd: c.into(), ..base.clone() });
     }
     for i in 0..3 {
@@ -1262,9 +1340,6 @@ fn single_factor(ctx: &Ctx) -> Vec<Config> {
     }
     for c in ["ok", "fail"] {
         v.push(Config { closure: c.into(), ..base.clone() });
-    }
-    for bn in ["missing", "notexec", "dir"] {
-        v.push(Config { bin: bn.into(), ..base.clone() });
     }
     v
 }
@@ -1296,6 +1371,7 @@ fn product() -> Vec<Config> {
                                 bin: "helper".into(),
                                 args: a.clone(),
                                 env: e.clone(),
+                                inherit: if WITH_START { Some(vec![b(b"INH=1"), b(b"HOME=/nowhere")]) } else { None },
                                 cwd: cwd.into(),
                                 stdio: t.stdio,
                                 uid: if ids { "current" } else { "unset" }.into(),
@@ -1387,13 +1463,14 @@ fn c13(args: &Args) -> Report {
     r.bound("shards", n_shards as u64);
     r.bound("deviations", if args.thorough { "every single call of parent and child x full errno menu for the single-factor configurations and the 125 stdio triples, x 1-2 errnos for the product; pairs (second deviation after the first, full menu) for the base command and the all-pipes command" } else { "every single call of parent and child x 1-2 errnos, for every configuration" });
     r.bound("args", "0..2 arguments incl. empty string and non-UTF-8 bytes");
-    r.bound("env", "nothing given, envs(0..2 entries) (thorough: entry without '=', empty value, non-UTF-8, duplicate key, empty entry)");
+    r.bound("env", if WITH_START { "nothing given (Inherit) over an installed process environment of {none, 0, 1, 2 entries}, envs(0..2 entries) over it (thorough: entry without '=', empty value, non-UTF-8, duplicate key, empty entry)" } else { "nothing given (None), envs(0..2 entries) (thorough: entry without '=', empty value, non-UTF-8, duplicate key, empty entry)" });
     r.bound("wall_s", (t0.elapsed().as_millis() as u64) as f64 / 1000.0);
     r.note(if WITH_START {
-        "built with tiny-std/start: the default environment is Environment::Inherit, which reads the private static tiny_std::env::ENV.env_p; in a std-linked harness nothing ever sets it (only tiny-std's own _start does), so Inherit passes a NULL envp = empty environment. Inheritance proper is therefore NOT exercised (needs hook H2 or a no-libc probe)."
+        "built with tiny-std/start + verif-hooks: the default environment is Environment::Inherit, which reads the private static tiny_std::env::ENV.env_p; the harness installs process environments of 0..2 entries through hook H2 (verif_set_env) — without installing, the static is null in a std-linked binary and Inherit passes a NULL envp (= empty), which is also a case"
     } else {
         "built without tiny-std/start: Environment::Inherit does not exist; default environment is Environment::None"
     });
+    r.note(format!("the spawned program is {}", ctx.helper_src));
     r.note("Child::wait returns the raw wait status (exit code << 8); the oracle accepts the raw status or the exit code");
     r.note("fork is a real fork (the seam does not reproduce vfork; process.rs uses fork on x86_64)");
     if !ctx.root_user {
